@@ -46,6 +46,13 @@ var opTimeout = 10 * time.Second
 // thorough is set for the thorough tier; generators may widen their ranges.
 var thorough bool
 
+// hangs counts implementation ops that did not return within the timeout, per op name.  A hung goroutine
+// cannot be killed and keeps a core busy, so after a few hangs of one op the timeout shrinks and after
+// maxHangs that op is no longer executed (its output is then the value `hang-skipped`).
+var hangs = map[string]int{}
+
+const maxHangs = 12
+
 func runImpl(line string) (out string) {
 	toks := strings.Fields(line)
 	if len(toks) == 0 {
@@ -54,6 +61,14 @@ func runImpl(line string) (out string) {
 	f, ok := impls[toks[0]]
 	if !ok {
 		return "bad-op"
+	}
+	h := hangs[toks[0]]
+	if h >= maxHangs {
+		return "hang-skipped"
+	}
+	timeout := opTimeout
+	if h >= 3 {
+		timeout = opTimeout / 5
 	}
 	ch := make(chan string, 1)
 	go func() {
@@ -67,7 +82,8 @@ func runImpl(line string) (out string) {
 	select {
 	case s := <-ch:
 		return s
-	case <-time.After(opTimeout):
+	case <-time.After(timeout):
+		hangs[toks[0]]++
 		return "hang"
 	}
 }
@@ -138,6 +154,7 @@ func main() {
 		out := fs.String("out", "", "output directory")
 		corpus := fs.String("corpus", "", "corpus directory (ops files run first)")
 		fs.BoolVar(&thorough, "thorough", false, "thorough tier (generators may widen)")
+		oracleTimeout := fs.Duration("oracle-timeout", 6*time.Minute, "deadline for the oracle stage")
 		fs.Parse(os.Args[2:])
 		p, ok := props[*id]
 		if !ok {
@@ -176,9 +193,11 @@ func main() {
 			// The oracle calls the real code directly; a panic there must not kill the run (it is itself a
 			// finding: no property allows a crash).  Run it under recover; after a panic run it again (the
 			// PRNG has advanced, so other cases are explored), a few times at most.
+			deadline := time.After(*oracleTimeout)
 			for attempt := 0; attempt < 4; attempt++ {
-				panicked := false
-				func() {
+				done := make(chan bool, 1)
+				go func() {
+					panicked := false
 					defer func() {
 						if r := recover(); r != nil {
 							panicked = true
@@ -186,9 +205,24 @@ func main() {
 							buf = buf[:runtime.Stack(buf, false)]
 							g.Fail("panic inside the implementation while the oracle was evaluating a case", fmt.Sprintf("%v\n%s", r, buf))
 						}
+						done <- panicked
 					}()
 					p.Oracle(g, *on)
 				}()
+				timedOut := false
+				panicked := false
+				select {
+				case panicked = <-done:
+				case <-deadline:
+					timedOut = true
+				}
+				if timedOut {
+					// an implementation call inside the oracle does not return: that is a finding of its own
+					// (no property allows a hang); the goroutine cannot be killed, so finish the run here.
+					g.Fail("hang: the oracle did not finish within its deadline (an implementation call does not terminate)",
+						fmt.Sprintf("deadline %v; last oracle case tag counts: %v", *oracleTimeout, g.st.OracleTags))
+					break
+				}
 				if !panicked {
 					break
 				}
